@@ -268,6 +268,7 @@ theorem stepT_slack {cfg : Cfg} (s : State) (op : Op) (a q : Nat) (d : Denom) (K
       simp only [lostOf, Nat.add_zero]
       exact this
     | beginBlock a' => simp only [step, Option.some.injEq] at h; subst h; exact same (GhostSame.of_bank rfl)
+    | migrate => exact same (gs_migrate h)
 
 theorem lostOf_cons (a p : Nat) (op : Op) (ops : List Op) : lostOf a p (op :: ops) = lostOf a p [op] + lostOf a p ops := by
   cases op <;> simp [lostOf]
